@@ -777,7 +777,16 @@ func genActions(c *ctx, s *schema, which string, g *ygrammar, gf *ast.File) {
 				for _, f := range st.Fields.List {
 					for _, n := range f.Names {
 						si.fields = append(si.fields, n.Name)
-						si.sorts = append(si.sorts, typeSort(f.Type))
+						srt := typeSort(f.Type)
+						if srt < 0 { // node.go refers to the ast package by name
+							switch nodeText(f.Type) {
+							case "ast.Vertex":
+								srt = sortNode
+							case "[]ast.Vertex":
+								srt = sortNodes
+							}
+						}
+						si.sorts = append(si.sorts, srt)
 					}
 				}
 				a.structs[ts.Name.Name] = si
@@ -805,6 +814,7 @@ func genActions(c *ctx, s *schema, which string, g *ygrammar, gf *ast.File) {
 		return
 	}
 	sfx := which[3:]
+	genTerms(c, a, which, g, sw, s)
 	var sums []pathSummary
 	var rows []string
 	seenProd := map[int]bool{}
